@@ -867,6 +867,10 @@ def message_discr(body, e):
     return e[0] == "discr" and e[1] == ("param", body.id, 2)
 
 
+STEP_LIMIT = 300000        # block visits per arm enumeration; the largest arm of the pinned tree needs 481 (40 paths) at thorough depth
+STATS = {}
+
+
 def enumerate_paths(prog, body, variant=None, entry=0, max_visits=2, inline=1, limit=20000, corstate=None):
     """All paths through the (arm of the) body.  variant: Message variant name selecting the arm, or None.
     Branches on compiler-generated flag locals are resolved by constant propagation along the path."""
@@ -875,10 +879,16 @@ def enumerate_paths(prog, body, variant=None, entry=0, max_visits=2, inline=1, l
     vidx = VARIANTS.index(variant) if variant else None
     cor = body.kind == "coroutine"
 
+    steps = [0]
+
     def go(bid, env, visits, events, blocks, last_state):
         if len(out) >= limit:
             raise AnalysisError("path limit exceeded in %s" % body.id)
         while True:
+            steps[0] += 1
+            STATS["steps"] = STATS.get("steps", 0) + 1
+            if steps[0] > STEP_LIMIT:
+                raise AnalysisError("step limit exceeded in %s (the arm's paths are too many to enumerate: fail closed)" % body.id)
             if visits.get(bid, 0) >= max_visits:
                 out.append(Path(events, "cut", blocks))
                 return
